@@ -1,0 +1,23 @@
+// Copyright Amazon.com, Inc. or its affiliates. All Rights Reserved.
+// SPDX-License-Identifier: Apache-2.0
+
+//go:build verif
+
+// Package vhook provides named pause points for verification harnesses.
+package vhook
+
+import "sync/atomic"
+
+var callback atomic.Value // func(string)
+
+// SetCallback installs the function invoked by At. Only available with -tags verif.
+func SetCallback(cb func(point string)) {
+	callback.Store(cb)
+}
+
+// At marks a named point in the code and hands control to the installed callback, if any.
+func At(point string) {
+	if cb, ok := callback.Load().(func(string)); ok && cb != nil {
+		cb(point)
+	}
+}
